@@ -101,7 +101,7 @@ func stdTolerations(p *corev1.Pod) bool {
 	for k, eff := range need {
 		ok := false
 		for _, t := range p.Spec.Tolerations {
-			if t.Key == k && t.Operator == corev1.TolerationOpExists && t.Effect == eff {
+			if t.Key == k && t.Operator == corev1.TolerationOpExists && t.Effect == eff && t.TolerationSeconds == nil {
 				ok = true
 			}
 		}
